@@ -234,7 +234,8 @@ def gen_table_case(rng, stats, mode="mixed", comp=None, small=True, nkeys=None, 
     effbs = max(bs, 16 if small else 1024)
     for k in adds:
         lines.append("w.add 1 %s %s" % (hx(k), hx(gen_val(rng, stats, effbs))))
-    lines.append("w.fin 1")
+    lines.append("@f w.fin 1")
+    lines.append("f.validate %s file=$f" % " ".join(a for a in cfg.split(" ") if not a.startswith(("level=", "pool="))))
     lines.append("w.prefix 1")
     verify = rng.below(2)
     lines.append("r.openw 2 1 verify=%d madv=%d" % (verify, rng.below(2)))
@@ -294,6 +295,9 @@ def oracle_table(res, stats=None):
             if not real.startswith("file "):
                 fails.append(("C01", "finish ended in %s" % real, i)); break
             writers[t[1]]["file"] = unhx(real.split(" ")[1])
+        elif op == "f.validate":
+            if real != "valid ok":
+                fails.append(("C09", "the independent decoder rejects the written file: " + real, i))
         elif op == "w.prefix":
             w = writers[t[1]]
             if real != "pre " + w["kv"].get("pre", "-"):
@@ -419,16 +423,23 @@ def tok(si, ei):
 
 
 def gen_merger_case(rng, stats, focus="C04"):
-    ns = rng.pick([0, 1, 2, 2, 3, 3, 4, 6])
-    universe = gen_keys(rng, rng.pick([1, 3, 6, 10, 16]), stats, long_ok=False)
+    heap_stress = rng.chance(1, 4)
+    ns = rng.pick([7, 8, 9, 10, 12, 15]) if heap_stress else rng.pick([0, 1, 2, 2, 3, 3, 4, 6])
+    universe = gen_keys(rng, rng.pick([12, 16, 24]) if heap_stress else rng.pick([1, 3, 6, 10, 16]), stats, long_ok=False)
     mode = rng.pick(["union", "union", "union", "none", "dupsort", "fail"])
+    if heap_stress:
+        stats.bump("merger_heap_stress")
     stats.bump("merger_mode_" + mode); stats.bump("merger_sources_%d" % ns)
     lines = ["reset"]
     srcs = []
     for si in range(ns):
         kind = "u" if rng.chance(1, 3) else "t"
         r = rng.below(5)
-        if r == 0:
+        if heap_stress:
+            # many small sources whose first keys come in random order: every shape of the initial heap pushes
+            start = rng.below(max(1, len(universe)))
+            ks = universe[start:start + rng.pick([1, 1, 2, 3])]
+        elif r == 0:
             ks = []
         elif r == 1:
             ks = list(universe)
